@@ -694,6 +694,295 @@ def layoutcheck_worker(args):
     return hutil.export(chk)
 
 
+LAYOUT_REPLAY = r"""
+# Replay for C33: a partial struct with a '[...]' array in the middle, through verify() (both engines) and set_source():
+# field names, types, offsets and sizes must agree.
+import sys, os, json, tempfile, atexit, shutil, importlib
+import cffi
+d = tempfile.mkdtemp(); atexit.register(shutil.rmtree, d, True)
+sys.path.insert(0, d)
+cdef = "struct rec_s { short tag; int samples[...]; int count; double scale; char flag; ...; };"
+src = "struct rec_s { short tag; char pad1; int samples[5]; long hidden; int count; double scale; char flag; };"
+def describe(ffi):
+    t = ffi.typeof('struct rec_s')
+    return (ffi.sizeof(t), ffi.alignof(t), [(n, f.type.cname, f.offset) for n, f in t.fields])
+res = {}
+for kind in ('set_source', 'cpython', 'generic'):
+    ffi = cffi.FFI(); ffi.cdef(cdef)
+    try:
+        if kind == 'set_source':
+            ffi.set_source('_c33_layout_mod', src); ffi.compile(tmpdir=d)
+            ffi = importlib.import_module('_c33_layout_mod').ffi
+        else:
+            os.makedirs(os.path.join(d, kind), exist_ok=True)
+            ffi.verify(src, tmpdir=os.path.join(d, kind), force_generic_engine=(kind == 'generic'))
+        res[kind] = describe(ffi)
+    except Exception as e:
+        res[kind] = 'raised %s: %s' % (type(e).__name__, str(e)[:100])
+bad = ['verify(%s) -> %r, set_source -> %r' % (k, res[k], res['set_source']) for k in ('cpython', 'generic') if res[k] != res['set_source']]
+for b in bad: print('VIOLATED:', b)
+sys.exit(1 if bad else 0)
+"""
+
+
+def fixedlayout_worker(args):
+    """verify(): model.StructOrUnion.finish_backend_type on a partial struct whose fixedlayout (what the compiler reported) is
+    symbolic: each field reaches the backend under its own name, with its declared type (a '[...]' array with the length the
+    reported size implies), no bit width and the reported offset -- what do_realize_lazy_struct builds for set_source() (C12)"""
+    prop, tier, kind, shape = args
+    chk = hutil.sub_check(prop, tier)
+    sys.path.insert(0, os.path.join(common.REPO, 'src'))
+    from cffi import model
+    from cffi.error import VerificationError
+    label = 'fixedlayout:%s' % '-'.join(shape)
+    px = pysym.PyExplorer()
+    SIZES = {'int': 4, 'double': 8, 'char': 1, 'short': 2}
+    _done = {}
+
+    def replay(case):
+        if 'r' not in _done:
+            path = chk.write_replay('layout', LAYOUT_REPLAY)
+            rc, out = common.run_replay(path, timeout=600)
+            _done['r'] = (common.replay_verdict(rc, out), path)
+        return _done['r']
+
+    def hp(px):
+        n = len(shape)
+        ofs = [px.sym_int('offset_%d' % k, 'int') for k in range(n)]
+        siz = [px.sym_int('size_%d' % k, 'int') for k in range(n)]
+        tot, ali = px.sym_int('sizeof', 'int'), px.sym_int('alignof', 'int')
+        for v in ofs + siz + [tot, ali]:
+            px.assume(z3.And(v.t >= 0, v.t <= (1 << 40)))
+        ftypes = []
+        for kd in shape:
+            if kd.startswith('arr:'):
+                ftypes.append(model.ArrayType(model.PrimitiveType(kd[4:]), '...'))
+            else:
+                ftypes.append(model.PrimitiveType(kd))
+        declared = list(ftypes)
+        names = ['f%d' % k for k in range(n)]
+        tp = model.StructType('s', names, tuple(ftypes), (-1,) * n)
+        tp.partial = True
+        tp.fixedlayout = (list(ofs), list(siz), tot, ali)
+        calls = []
+
+        class BT(object):
+            def __init__(self, m):
+                self.m = m
+
+        class Backend(object):
+            def complete_struct_or_union(self, BType, lst, tp_, totalsize, totalalignment, *extra):
+                calls.append((lst, totalsize, totalalignment, extra))
+
+        class FFI(object):
+            _backend = Backend()
+
+            def __init__(self):
+                self._cached_btypes = {tp: BT(tp)}
+
+            def sizeof(self, bt):
+                m = bt.m
+                if isinstance(m, model.ArrayType):
+                    return m.length * SIZES[m.item.name]
+                return SIZES[m.name]
+        saved = model.BaseTypeByIdentity.get_cached_btype
+        model.BaseTypeByIdentity.get_cached_btype = lambda self, ffi, finishlist, can_delay=False: BT(self)
+        try:
+            try:
+                tp.finish_backend_type(FFI(), [])
+                outcome = 'completed'
+            except VerificationError:
+                outcome = 'VerificationError'
+            except llsym.Unsupported as e:
+                if 'int() of a symbolic int' not in str(e):     # '%d' in the error message
+                    raise
+                outcome = 'VerificationError'
+        finally:
+            model.BaseTypeByIdentity.get_cached_btype = saved
+        hutil.witness(chk, px, label + ':' + outcome)
+        inputs = dict(('offset_%d' % k, v.t) for k, v in enumerate(ofs))
+        inputs.update(dict(('size_%d' % k, v.t) for k, v in enumerate(siz)))
+        # the reported sizes are consistent with the declared types: exact for scalars, a multiple of the item size for arrays
+        cons = []
+        for k, kd in enumerate(shape):
+            if kd.startswith('arr:'):
+                cons.append(siz[k].t % SIZES[kd[4:]] == 0)
+            else:
+                cons.append(siz[k].t == SIZES[kd])
+        consistent = z3.And(*cons) if cons else z3.BoolVal(True)
+        D = lambda nm, c: hutil.discharge(chk, px, label + ':' + nm, c, inputs, replay=replay)
+        if outcome != 'completed':
+            D('rejected=>a-reported-size-contradicts-the-declaration', z3.Not(consistent))
+            return
+        D('completed=>sizes-consistent', consistent)
+        okc = len(calls) == 1 and len(calls[0][0]) == n
+        D('backend-completes-the-struct-once-with-every-field', okc)
+        if not okc:
+            return
+        lst, totalsize, totalalignment, extra = calls[0]
+        T = lambda x: x.t if hasattr(x, 't') else x
+        D('sizeof-and-alignof-handed-over', z3.And(T(totalsize) == tot.t, T(totalalignment) == ali.t))
+        for k, (nm, bt, bits, o) in enumerate(lst):
+            m = bt.m
+            if shape[k].startswith('arr:'):
+                okt = isinstance(m, model.ArrayType) and m.item is declared[k].item
+                D('field%d:array-of-the-declared-item-type' % k, okt)
+                if okt:
+                    D('field%d:array-length==reported-size/item-size' % k, T(m.length) * SIZES[shape[k][4:]] == siz[k].t)
+            else:
+                D('field%d:declared-type' % k, m is declared[k])
+            D('field%d:own-name-no-bit-width-reported-offset' % k, z3.And(z3.BoolVal(nm == names[k] and bits == -1), T(o) == ofs[k].t))
+    res = px.explore(hp, max_paths=2000)
+    hutil.finish_explore(chk, px, res, label)
+    if not chk.witnesses:
+        chk.inconc(label + ': no path reached an obligation')
+    chk.functions = [{'name': 'StructOrUnion.finish_backend_type', 'file': 'src/cffi/model.py'}]
+    return hutil.export(chk)
+
+
+ENUM_REPLAY = r"""
+# Replay for C33: the integer type of an enum through verify() (cffi guesses it from the values) and set_source() (taken from
+# the C compiler) must agree: sizeof and signedness, and a struct holding the enum must be usable.
+import sys, os, json, tempfile, atexit, shutil, importlib
+import cffi
+case = json.loads(%r)
+d = tempfile.mkdtemp(); atexit.register(shutil.rmtree, d, True)
+sys.path.insert(0, d)
+lit = lambda v: '(-%%dLL - 1)' %% (-v - 1) if v < 0 else ('%%dLL' %% v if v < 2**63 else '%%dULL' %% v)
+cdef = "enum level_e { LV_A = %%d, LV_B = %%d }; struct holder_s { enum level_e lv; };" %% (case['a'], case['b'])
+src = "enum level_e { LV_A = %%s, LV_B = %%s }; struct holder_s { enum level_e lv; };" %% (lit(case['a']), lit(case['b']))
+res = {}
+for kind in ('set_source', 'cpython', 'generic'):
+    ffi = cffi.FFI()
+    try:
+        ffi.cdef(cdef)
+        if kind == 'set_source':
+            ffi.set_source('_c33_enum_mod', src); ffi.compile(tmpdir=d)
+            ffi = importlib.import_module('_c33_enum_mod').ffi
+        else:
+            os.makedirs(os.path.join(d, kind), exist_ok=True)
+            ffi.verify(src, tmpdir=os.path.join(d, kind), force_generic_engine=(kind == 'generic'))
+        res[kind] = (ffi.sizeof('enum level_e'), int(ffi.cast('enum level_e', -1)) < 0, ffi.sizeof('struct holder_s'))
+    except Exception as e:
+        res[kind] = 'raised %%s' %% type(e).__name__
+bad = ['verify(%%s) -> %%r, set_source -> %%r' %% (k, res[k], res['set_source']) for k in ('cpython', 'generic') if res[k] != res['set_source']]
+for b in bad: print('VIOLATED:', b)
+sys.exit(1 if bad else 0)
+"""
+
+_gcc_enum = None
+
+
+def gcc_enum_facts(samples):
+    """(size, signed) gcc gives 'enum e { A = a, B = b }' for each sample pair"""
+    global _gcc_enum
+    if _gcc_enum is not None:
+        return _gcc_enum
+    d = common.scratch_dir()
+    lit = lambda v: '(-%dLL - 1)' % (-v - 1) if v < 0 else ('%dLL' % v if v < 2 ** 63 else '%dULL' % v)
+    lines = ['#include <stdio.h>']
+    for i, (a, b) in enumerate(samples):
+        lines.append('enum e%d { A%d = %s, B%d = %s };' % (i, i, lit(a), i, lit(b)))
+    lines.append('int main(void) {')
+    for i in range(len(samples)):
+        lines.append('  printf("%%d %%zu %%d\\n", %d, sizeof(enum e%d), ((enum e%d)-1) < 0);' % (i, i, i))
+    lines.append('  return 0; }')
+    p = os.path.join(d, 'enumfacts.c')
+    open(p, 'w').write('\n'.join(lines))
+    r = subprocess.run(['gcc', '-w', '-o', p[:-2], p], capture_output=True)
+    if r.returncode != 0:
+        raise common.HarnessError('gcc failed on the enum facts program: ' + r.stderr.decode()[-800:])
+    out = {}
+    for l in subprocess.run([p[:-2]], capture_output=True).stdout.decode().split('\n'):
+        q = l.split()
+        if q:
+            out[samples[int(q[0])]] = (int(q[1]), bool(int(q[2])))
+    _gcc_enum = out
+    return out
+
+
+def enum_rule(lo, hi):
+    """the compiler's choice (GNU C on x86-64) for an enum whose values span [lo, hi]: (size, signed) or None"""
+    if lo < 0:
+        if lo >= -2 ** 31 and hi <= 2 ** 31 - 1:
+            return (4, True)
+        if lo >= -2 ** 63 and hi <= 2 ** 63 - 1:
+            return (8, True)
+        return None
+    if hi <= 2 ** 32 - 1:
+        return (4, False)
+    if hi <= 2 ** 64 - 1:
+        return (8, False)
+    return None
+
+
+ENUM_SAMPLES = [(0, 1), (-1, 0), (0, 2 ** 31 - 1), (0, 2 ** 31), (0, 2 ** 32 - 1), (0, 2 ** 32), (-1, 2 ** 31 - 1), (-1, 2 ** 31),
+                (-1, 2 ** 32 - 1), (-2 ** 31, 0), (-2 ** 31 - 1, 0), (-1, 2 ** 63 - 1), (0, 2 ** 63), (0, 2 ** 64 - 1), (-2 ** 63, 5)]
+
+
+def enumbase_worker(args):
+    """verify() guesses the integer type of an enum from its values (model.EnumType.build_baseinttype); set_source() takes size
+    and sign from the C compiler.  For every pair of enumerator values the guess equals the compiler's choice (rule validated
+    against gcc on boundary samples at every run)."""
+    prop, tier, kind = args
+    chk = hutil.sub_check(prop, tier)
+    sys.path.insert(0, os.path.join(common.REPO, 'src'))
+    from cffi import model
+    from cffi.error import CDefError
+    label = 'enum-base-type'
+    facts = gcc_enum_facts(ENUM_SAMPLES)
+    for (a, b), got in facts.items():
+        if enum_rule(min(a, b), max(a, b)) != got:
+            raise common.HarnessError('the reference rule for enum base types disagrees with gcc on %r: %r vs %r' % ((a, b), enum_rule(min(a, b), max(a, b)), got))
+    chk.translator_validation['samples'] += len(facts)
+    px = pysym.PyExplorer()
+    SIZE = {'int': (4, True), 'long': (8, True), 'unsigned int': (4, False), 'unsigned long': (8, False)}
+
+    def replay(case):
+        path = chk.write_replay('enumbase', ENUM_REPLAY % json.dumps({'a': case['a'], 'b': case['b']}))
+        rc, out = common.run_replay(path, timeout=600)
+        return common.replay_verdict(rc, out), path
+
+    def hp(px):
+        a, b = px.sym_int('a', 'int'), px.sym_int('b', 'int')
+        for v in (a, b):
+            px.assume(z3.And(v.t >= -(1 << 63), v.t <= (1 << 64) - 1))
+        tp = model.EnumType('level_e', ('LV_A', 'LV_B'), (a, b))
+
+        class BT(object):
+            def __init__(self, m):
+                self.m = m
+
+        class FFI(object):
+            def sizeof(self, bt):
+                return SIZE[bt.m.name][0]
+        saved = model.BaseTypeByIdentity.get_cached_btype
+        model.BaseTypeByIdentity.get_cached_btype = lambda self, ffi, finishlist, can_delay=False: BT(self)
+        try:
+            try:
+                bt = tp.build_baseinttype(FFI(), [])
+                got = SIZE[bt.m.name]
+            except CDefError:
+                got = None
+        finally:
+            model.BaseTypeByIdentity.get_cached_btype = saved
+        hutil.witness(chk, px, label + ':' + ('none' if got is None else '%d-bytes-%s' % (got[0], 'signed' if got[1] else 'unsigned')))
+        lo = z3.If(a.t < b.t, a.t, b.t)
+        hi = z3.If(a.t < b.t, b.t, a.t)
+        want = {(4, True): z3.And(lo < 0, lo >= -2 ** 31, hi <= 2 ** 31 - 1),
+                (8, True): z3.And(lo < 0, z3.Not(z3.And(lo >= -2 ** 31, hi <= 2 ** 31 - 1)), hi <= 2 ** 63 - 1),
+                (4, False): z3.And(lo >= 0, hi <= 2 ** 32 - 1),
+                (8, False): z3.And(lo >= 0, hi > 2 ** 32 - 1),
+                None: z3.And(lo < 0, hi > 2 ** 63 - 1)}
+        hutil.discharge(chk, px, label + ':guess==the-compilers-choice', want[got], {'a': a.t, 'b': b.t}, replay=replay)
+    res = px.explore(hp, max_paths=2000)
+    hutil.finish_explore(chk, px, res, label)
+    if not chk.witnesses:
+        chk.inconc(label + ': no path reached an obligation')
+    chk.functions = [{'name': 'EnumType.build_baseinttype', 'file': 'src/cffi/model.py'}]
+    return hutil.export(chk)
+
+
 def dispatch(args):
     k = args[2]
     if k in ('int', 'bool', 'double'):
@@ -710,6 +999,10 @@ def dispatch(args):
         return layout_worker(args)
     if k == 'layoutcheck':
         return layoutcheck_worker(args)
+    if k == 'fixedlayout':
+        return fixedlayout_worker(args)
+    if k == 'enumbase':
+        return enumbase_worker(args)
     if k == 'c13':
         from harness import C13
         return C13.wrapper_worker((args[0], args[1]) + tuple(args[3]))
@@ -736,10 +1029,14 @@ def run(chk):
             cases.append(P + ('const', i, form))
         cases.append(P + ('genconst', i))
     cases.append(P + ('enum',))
+    cases.append(P + ('enumbase',))
     for engine in ('cpy', 'gen'):
         for n in range(0, 3 if quick else 5):
             cases.append(P + ('layout', engine, n))
             cases.append(P + ('layoutcheck', engine, n))
+    for shape in [('int',), ('arr:int',), ('short', 'arr:int', 'int'), ('arr:int', 'double', 'char'), ('int', 'arr:short', 'arr:int', 'double')] + \
+                 ([] if quick else [('arr:char', 'arr:int', 'arr:double', 'int'), ('char', 'short', 'int', 'double', 'arr:int')]):
+        cases.append(P + ('fixedlayout', shape))
     chk.bounds = {'functions': 'identity functions over %d integer types/typedefs, _Bool, float, double x every Python int / double; two multi-argument functions' % len(INT_TYPES),
                   'constants': '%d integer types x {#define K <v> for v in %r, #define K ..., static const T K} x every compiler value' % (len(CTYPES), CDEF_VALUES),
                   'enums': 'one enum of three enumerators (42, -5, 0) with independent symbolic compiler values (int, long, short)',
